@@ -354,6 +354,22 @@ def addr_of_local_stored(param_toks, body):
     return out
 
 
+def timeout_calls(body):
+    """Ordered time-out related actions of a body: ("call", helper) for reset_timeout()/reset_deterministic_timeout(),
+    ("new", slot, kind) for `slot = new Watchdog(...)` / `slot = new Weightwatch(...)`, ("delete", slot) for `delete slot`."""
+    out = []
+    for k, t in enumerate(body):
+        if t in ("reset_timeout", "reset_deterministic_timeout") and k + 1 < len(body) and body[k + 1] == "(":
+            out.append(["call", t])
+        elif t == "new" and k + 1 < len(body) and body[k + 1] in ("Watchdog", "Weightwatch"):
+            j = k - 1
+            slot = body[j - 1] if j >= 1 and body[j] == "=" else "?"
+            out.append(["new", slot, body[k + 1]])
+        elif t == "delete" and k + 1 < len(body) and re.match(r"p_\w+$", body[k + 1]):
+            out.append(["delete", body[k + 1]])
+    return out
+
+
 def parse_handler(ptoks, btoks):
     """catch (ptoks) { btoks }"""
     p = [t for t in ptoks if t not in ("const", "&")]
@@ -428,6 +444,7 @@ def parse_tu(text, fname):
                        "body_returns": ends_in_return(body), "chain": [],
                        "calls": calls_in(body), "inner_try": "try" in body,
                        "addr_of_local": addr_of_local_stored(decl[p + 1:q], body),
+                       "tcalls": timeout_calls(body),
                        "static_objs": [body[k + 1] for k in range(len(body) - 2) if body[k] == "static" and body[k + 2] not in ("(", "*")]}
                 i = j + 1
                 if has_try:
@@ -631,6 +648,26 @@ def write_coq(facts, path):
                 regs.append("(%s, %s)" % (coq_str(e["name"]), coq_ctype(t)))
     lines.append("(* the exception object each time-out setter hands to the watchdog (its `static T e;`) *)")
     lines.append("Definition timeout_registrations : list (string * ctype) := [%s]." % "; ".join(regs))
+    lines.append("")
+    TENT = ("ppl_set_timeout", "ppl_reset_timeout", "ppl_set_deterministic_timeout", "ppl_reset_deterministic_timeout")
+    def coq_tcall(tc, e):
+        if tc[0] == "call":
+            return "(TCall %s)" % coq_str(tc[1])
+        if tc[0] == "new":
+            so = e.get("static_objs", [])
+            return "(TNew %s %s %s)" % (coq_str(tc[1]), coq_str(tc[2]), coq_ctype(so[0]) if so else "(CT_unknown \"?\")")
+        return "(TDelete %s)" % coq_str(tc[1])
+    tl = []
+    for e in sorted(facts["entries"], key=lambda e: e["name"]):
+        if e["name"] in TENT:
+            tl.append("  (%s, [%s])" % (coq_str(e["name"]), "; ".join(coq_tcall(tc, e) for tc in e.get("tcalls", []))))
+    lines.append("(* time-out related actions, in order, of the four registration entries, and of the reset helpers *)")
+    lines.append("Definition timeout_entry_bodies : list (string * list tcall) := [\n%s]." % ";\n".join(tl))
+    hl2 = []
+    for h in facts["helpers"]:
+        if h["name"].startswith("reset_"):
+            hl2.append("  (%s, [%s])" % (coq_str(h["name"]), "; ".join(coq_tcall(tc, h) for tc in h.get("tcalls", []))))
+    lines.append("Definition timeout_helper_bodies : list (string * list tcall) := [\n%s]." % ";\n".join(hl2))
     lines.append("")
     lines.append("(* bodies of the functions the handlers call: list of calls they make *)")
     lines.append("Definition handler_helpers : list (string * list string) := [\n%s]." % ";\n".join(hl))
